@@ -248,5 +248,86 @@ theorem run_ok_not_outlasted {V} (ops : ValOps V) (hm : MergePerm ops) (r : Runn
     (enabled_of_facts ops r _ END v hEnd).mono hsub
   exact run_end_never_waits ops r wf wf2 sB hfB x _ _ _ (by rw [hLB]; exact eB) hen
 
+/-! ### a run that returns a value has no failed task; hence neither has any other schedule -/
+
+theorem runTasks_ok_all {V} (r : Runner V) (sched : Sched V) (hf : sched.Fair) (step : Nat)
+    (ts : List (Key × V)) (done : List (Done V)) (h : runTasks r sched step ts = .ok done) :
+    ∀ t, t ∈ ts → (outOf r t).isSome = true := by
+  unfold runTasks at h
+  intro t ht
+  have hm : execOne r t ∈ sched step (ts.map (execOne r)) :=
+    (hf step _).symm.subset (List.mem_map.mpr ⟨t, ht, rfl⟩)
+  obtain ⟨d', _, h2⟩ := mapM_collectOne_mem' _ _ h _ hm
+  simp [outOf, h2]
+
+theorem loop_ok_all {V} (ops : ValOps V) (r : Runner V) (sched : Sched V) (hf : sched.Fair) :
+    ∀ (fuel : Nat) (cm : Chans V) (tasks : List (Key × V)) (tr : Trace V) (v : V),
+      (∀ t, t ∈ tr.flatten → (outOf r t).isSome = true) →
+      (loop ops r sched fuel cm tasks tr).result = .ok v →
+      ∀ t, t ∈ (loop ops r sched fuel cm tasks tr).trace.flatten → (outOf r t).isSome = true := by
+  intro fuel
+  induction fuel with
+  | zero => intro cm tasks tr v _ h; simp [loop] at h
+  | succ f ih =>
+    intro cm tasks tr v h0 hres
+    unfold loop at hres ⊢
+    simp only at hres ⊢
+    cases hr : runTasks r sched tr.length tasks with
+    | error e => simp [hr] at hres
+    | ok done =>
+      simp only [hr] at hres ⊢
+      have hall : ∀ t, t ∈ (tasks :: tr).flatten → (outOf r t).isSome = true := by
+        intro t ht
+        simp only [List.flatten_cons, List.mem_append] at ht
+        rcases ht with h | h
+        · exact runTasks_ok_all r sched hf _ _ _ hr t h
+        · exact h0 t h
+      have hrev : ∀ t, t ∈ (tasks :: tr).reverse.flatten → (outOf r t).isSome = true := by
+        intro t ht
+        rw [mem_reverse_flatten] at ht
+        exact hall t ht
+      by_cases he : done.isEmpty = true
+      · simp [he] at hres
+      · simp only [he, Bool.false_eq_true, ↓reduceIte] at hres ⊢
+        cases hc : calcNext ops r cm done with
+        | error e => simp [hc] at hres
+        | ok res =>
+          obtain ⟨cm', nx⟩ := res
+          cases nx with
+          | result w => simp only [hc]; exact hrev
+          | tasks ts =>
+            simp only [hc] at hres ⊢
+            exact ih cm' ts (tasks :: tr) v hall hres
+
+/-- every task of a run that returns a value succeeded -/
+theorem run_ok_all_tasks_succeed {V} (ops : ValOps V) (r : Runner V) (sched : Sched V) (hf : sched.Fair) (x v : V)
+    (h : (runS ops r sched x).result = .ok v) :
+    ∀ t, t ∈ (runS ops r sched x).trace.flatten → (outOf r t).isSome = true := by
+  unfold runS at h ⊢
+  cases hc : calcNext ops r (initChans r) [(START, x)] with
+  | error e => simp [hc] at h
+  | ok res =>
+    obtain ⟨cm', nx⟩ := res
+    cases nx with
+    | result w => intro t ht; simp at ht
+    | tasks ts =>
+      simp only [hc] at h ⊢
+      exact loop_ok_all ops r sched hf r.fuel cm' ts [] v (by intro t ht; simp at ht) h
+
+/-- **if one schedule returns a value, no node fails under any other fair schedule** -/
+theorem run_ok_other_no_node_failure {V} (ops : ValOps V) (hm : MergePerm ops) (r : Runner V)
+    (wf : DagWF r) (wf2 : DagWF2 r) (wf3 : DagWF3 r) (sA sB : Sched V) (hfA : sA.Fair) (hfB : sB.Fair) (x v : V)
+    (hA : (runS ops r sA x).result = .ok v) :
+    ∀ t, t ∈ (runS ops r sB x).trace.flatten → (outOf r t).isSome = true := by
+  intro t ht
+  obtain ⟨s, hs, hts⟩ := List.mem_flatten.mp ht
+  obtain ⟨j, hj, rfl⟩ := List.mem_iff_getElem.mp hs
+  have hle := run_ok_not_outlasted ops hm r wf wf2 wf3 sA sB hfA hfB x v hA
+  have hjA : j < (runS ops r sA x).trace.length := by omega
+  have := run_steps_sched_independent ops hm r wf wf2 wf3 sA sB hfA hfB x j _ _
+    (List.getElem?_eq_getElem hjA) (List.getElem?_eq_getElem hj) t
+  exact run_ok_all_tasks_succeed ops r sA hfA x v hA t
+    (List.mem_flatten.mpr ⟨_, List.getElem_mem hjA, this.mpr hts⟩)
+
 end DagRun
 end EinoV.Engine
